@@ -37,6 +37,15 @@ func Open(path string) (*FreeList, error) {
 	if err != nil {
 		return nil, err
 	}
+	// A crash can leave a partially written entry at the end of the file. Cut
+	// it off, otherwise every entry appended after it is read misaligned.
+	const entrySize = types.OffBytesLen + types.SizeBytesLen
+	if fi, err := file.Stat(); err == nil && fi.Size()%entrySize != 0 {
+		if err = file.Truncate(fi.Size() - fi.Size()%entrySize); err != nil {
+			file.Close()
+			return nil, err
+		}
+	}
 	return &FreeList{
 		file:      file,
 		writer:    bufio.NewWriterSize(file, blockBufferSize),
